@@ -4,8 +4,8 @@ from __future__ import annotations
 import simplify
 
 ID = "C14"
-THEOREMS = ["simplify_normal_form", "simp_nf", "simplify_output_wf", "proj_of_tuple", "proj_of_list", "proj_of_dict_key", "proj_of_dict_attr", "name_substituted", "rule_tuple_index", "rule_list_index"]
-LEANCHECKER_MODULES = ["Fadl.Props.C14Normal", "Fadl.Props.C18Total", "Fadl.Props.C14", "Fadl.Props.C02Rules"]  # re-checked by leanchecker in the thorough tier
+THEOREMS = ["simplify_pack_chain_eliminated", "typed_normal_form_constructions", "typed_nf_packed", "stage_src_opq", "simplify_normal_form", "simp_nf", "simplify_output_wf", "proj_of_tuple", "proj_of_list", "proj_of_dict_key", "proj_of_dict_attr", "name_substituted", "rule_tuple_index", "rule_list_index"]
+LEANCHECKER_MODULES = ["Fadl.Props.C14Shape", "Fadl.Props.C14Normal", "Fadl.Props.C18Total", "Fadl.Props.C14", "Fadl.Props.C02Rules"]  # re-checked by leanchecker in the thorough tier
 RULE = (
     "generated pack chains (harness/simplify.py: gen_packchain): 2-5 Select/Where/SelectMany stages over ds in function "
     "form; every intermediate stage packages leaf expressions into a random nesting (depth <= 2) of tuples, lists and "
@@ -14,20 +14,7 @@ RULE = (
     "all-identical or random; the last stage returns a plain value (then nothing may survive) or a pack (allowed only "
     "as the final result); non-trivial = every chain; distinct = source text"
 )
-EXPLANATION = (
-    "Main theorem simplify_normal_form (Props/C14Normal.lean, from simp_nf: induction over the fuel and every clause of the "
-    "visitor and of call_Select / call_SelectMany / call_Where, on top of the well-formedness invariant of C18): whatever the "
-    "visitor model returns for a well-formed query is a normal form (nf, Model/WfQuery.lean) - no constant projection is left "
-    "sitting on a tuple / list literal (non-negative index), on a dictionary literal that defines the key (subscript or "
-    "attribute) or on a First(...); no Select / SelectMany / Where call is left on a source it fuses with. So wherever a later "
-    "stage's projection meets the literal an earlier stage built neither survives, and stages never stay separate - for every "
-    "chain, nesting and choice of binder names. PARTIAL: that in a pack chain every projection does meet its literal (so that "
-    "no construction remains at all) is a typing argument that is not formalised; it is checked per run by the node-kind "
-    "oracle. The conclusion of the theorem is evaluated on the output of the REAL simplifier for every generated well-formed "
-    "query (driver op nf). One-step rules: proj_of_tuple, proj_of_list, proj_of_dict_key, proj_of_dict_attr, name_substituted. "
-    "Correspondence: as C02, on generated pack chains. Oracle: node kinds of the real output: no Tuple/List/Dict node and no "
-    "constant projection may remain unless it is part of the final stage's result."
-)
+EXPLANATION = ("Main theorem simplify_normal_form (Props/C14Normal.lean, from simp_nf: induction over the fuel and every clause of the visitor and of call_Select / call_SelectMany / call_Where, on top of the well-formedness invariant of C18): whatever the visitor model returns for a well-formed query is a normal form (nf, Model/WfQuery.lean) - no constant projection is left sitting on a tuple / list literal (non-negative index), on a dictionary literal that defines the key (subscript or attribute) or on a First(...); no Select / SelectMany / Where call is left on a source it fuses with. So wherever a later stage's projection meets the literal an earlier stage built neither survives, and stages never stay separate - for every chain, nesting and choice of binder names. Typing argument, now formal (Props/C14Shape.lean): typed_nf_packed / typed_normal_form_constructions - a query that obeys the pack-chain discipline (shapeOf, Model/Shape.lean: packs are built by literals only and taken apart by constant selectors only; operators, calls and attributes of objects handle pack-free values; the source of a stage is another stage or pack-free) and is in normal form holds tuple / list / dictionary constructions in RESULT position only (resOK), and none at all when its shape is pack-free (noLit): a projection with a pack-shaped base would have a literal base (a redex) or a First base (pushed inside), both excluded by nf, and the source of a stage in normal form is pack-free (stage_src_opq). With simplify_normal_form: simplify_pack_chain_eliminated. What stays unproved is subject reduction (that the OUTPUT of a pack chain obeys the discipline); it is evaluated on the real simplifier's output for every generated pack chain (driver op shape; distribution 'shape of the real output'), and where it holds the conclusion is demanded of the real output. PARTIAL (superseded by the above where the output obeys the discipline): that in a pack chain every projection does meet its literal (so that no construction remains at all) is a typing argument that is not formalised; it is checked per run by the node-kind oracle. The conclusion of the theorem is evaluated on the output of the REAL simplifier for every generated well-formed query (driver op nf). One-step rules: proj_of_tuple, proj_of_list, proj_of_dict_key, proj_of_dict_attr, name_substituted. Correspondence: as C02, on generated pack chains. Oracle: node kinds of the real output: no Tuple/List/Dict node and no constant projection may remain unless it is part of the final stage's result.")
 
 
 def run(ctx):
